@@ -1,9 +1,9 @@
 package rules
 
 import (
-	"slipcheck/lenflow"
 	"fmt"
 	"go/token"
+	"slipcheck/lenflow"
 	"sort"
 	"strings"
 
